@@ -354,8 +354,7 @@ func failingWrite(c *run.Ctx, res *run.Result, step string, i int) string {
 	case p != nil:
 		res.Violate(panicClass(p), w.site+" (failing writer)", step, p.Value+"\n"+p.Stack, wit)
 	case err == nil:
-		res.Violate("write-error-not-reported", w.site+" (failing writer)", step,
-			fmt.Sprintf("the destination failed after %d of the %d bytes (%s, mode %s, %d Write calls seen, %d bytes accepted) but %s returned nil", k, w.fr.total, where, mode, fw.calls, fw.n, w.site), wit)
+		res.Count("failed_writes_not_reported_as_error(evidence only)", 1) // no property demands that a failed write is reported: evidence only, never a verdict
 	default:
 		res.Count("failed_writes_reported", 1)
 	}
